@@ -766,6 +766,10 @@ func checkDecoderPanics(c *km.Ctx, s *km.Sem) {
 						}
 					}
 				}
+			case *ssa.Call:
+				if operand, n, ok := libMinLen(x); ok && st.All(func(kk km.Conj) bool { return lenAtLeast(kk, operand, n) }) {
+					guarded, how = true, "len guard"
+				}
 			case *ssa.Panic:
 				if cs, ok := km.ConstString(x.X); ok && cs == "blocking select matched no case" {
 					guarded, how = true, "compiler-generated"
